@@ -177,7 +177,7 @@ def r4(ctx):
                 return 'keep'
             return None
         ncase, bad = check_pred(test, lambda e: (not e['keep']) and (e['start'] < 0 or e['end'] > e['L']),
-                                symbols=['start', 'end', 'L'], constraint=lambda e: e['start'] < e['end'] and e['L'] > 0, atom_name=atom, extra_consts=(0,))
+                                symbols=['start', 'end', 'L'], constraint=lambda e: e['start'] < e['end'] and e['L'] > 0, atom_name=atom, extra_consts=(0,), extra_bools=['keep'])
         ctx.counters['abstract_cases'] += ncase
         ctx.emit('C10-R4', not bad, COUNTTABLE, ifs[0], f'bounds rejection `{src(test)}`: {ncase} cases enumerated; ' +
                  ('== not keepOverBounds and (start < 0 or end > contig length)' if not bad else f'differs from the specification on {bad[0]}'),
